@@ -1,13 +1,16 @@
 (* Run_C20.v — case records and evaluators for the C20 correspondence check. *)
-From PGV Require Import Base.Bytes Base.GoNum Json.Grammar Model.DumpVal Model.Dump Spec.DumpSpec.
+From PGV Require Import Base.Bytes Base.GoNum Json.Grammar Model.Dump Spec.DumpSpec.
+From PGV Require Export Model.DumpVal.   (* case files write [val] terms *)
 Open Scope N_scope.
 
 Inductive case :=
-| CDump (v : val) (obs : str) (json_agrees : bool)
+| CDump (v : val) (obs : str) (json_agrees : bool) (in_domain : bool)
     (* GetDumpStructStr(v) = obs, byte for byte (maps have at most one entry, so the iteration
        order is determined); json_agrees: the harness decoded obs and GetDumpStructStrForJson(v)
-       with encoding/json and found the same document up to the documented deviations *)
-| CPerm (v : val) (obs : str) (json_agrees : bool).
+       with encoding/json and found the same document up to the documented deviations;
+       in_domain: the generator claims the value lies in the property's domain — then [dumpable]
+       must hold, so a generator that leaves the domain cannot make the check vacuous *)
+| CPerm (v : val) (obs : str) (json_agrees : bool) (in_domain : bool).
     (* the same with multi-entry maps: Go's iteration order is not observable, so obs is compared
        as a document with object members taken as a set *)
 
@@ -63,9 +66,9 @@ Definition run_dump (v : val) : res str := dump (S (depth v)) v.
 
 Definition check_model (c : case) : bool :=
   match c with
-  | CDump v obs _ =>
+  | CDump v obs _ _ =>
     match run_dump v with Ok s => str_eqb s obs | _ => false end
-  | CPerm v obs _ =>
+  | CPerm v obs _ _ =>
     match run_dump v with
     | Ok s => match jparse s, jparse obs with
               | Some a, Some b => same_doc a b
@@ -79,20 +82,20 @@ Definition check_model (c : case) : bool :=
    generated to tie the model (check_model) and are skipped here *)
 Definition check_spec (c : case) : bool :=
   match c with
-  | CDump v obs agrees =>
+  | CDump v obs agrees in_domain =>
     if dumpable v then
       match doc_of v with
       | Some d => str_eqb obs (jprint d) && jvalidb obs && agrees
       | None => false
       end
-    else true
-  | CPerm v obs agrees =>
+    else negb in_domain
+  | CPerm v obs agrees in_domain =>
     if dumpable v then
       match doc_of v, jparse obs with
       | Some d, Some o => same_doc d o && agrees
       | _, _ => false
       end
-    else true
+    else negb in_domain
   end.
 
 Fixpoint bad_idx (f : case -> bool) (i : N) (cs : list case) : list N :=
